@@ -15,6 +15,11 @@ spec["conds"] = [ [file, function, anchor-regex, gallina-name, [params], {c-sube
 spec["strconds"] = [ [file, function, anchor-regex, gallina-name, [a, b]], ... ]
    a string comparison: group 1 must be  !strcmp(a, b)  (-> whole-string equality) or  !strncmp(a, b, strlen(a))
    (-> "a is a prefix of b"); anything else is an error  ->  Definition <name> (a b : list Z) : bool
+spec["exprs"] = [ [file, function, anchor-regex, gallina-name], ... ]
+   the C text (blanks removed) of group 1 of the anchor, which must match exactly once  ->  Definition <name> : string
+spec["pins"] = [ [file, [function, ...]], ... ]
+   SHA-256 of the function body (comments and all white space removed): the hand-written model of that function was
+   written against exactly this text  ->  Definition <function>_src : string
 """
 import re
 
@@ -135,4 +140,17 @@ def emit(repo, spec, H):
             raise ValueError("%s:%s: unsupported string comparison %r" % (f, fn, cexpr))
         out.append("(* %s: %s: %s *)" % (f, fn, cexpr))
         out.append("Definition %s (%s %s : list Z) : bool := %s." % (name, a, b, term))
+    for f, fn, anchor, name in spec.get("exprs", []):
+        body = H.func_body(H.raw(repo, f), fn)
+        ms = list(re.finditer(anchor, body))
+        if len(ms) != 1:
+            raise ValueError("%s:%s: anchor %r matched %d times (need exactly 1)" % (f, fn, anchor, len(ms)))
+        out.append("(* %s: %s *)" % (f, fn))
+        out.append('Definition %s : string := "%s"%%string.' % (name, "".join(ms[0].group(1).split()).replace('"', "'")))
+    import hashlib
+    for f, fns in spec.get("pins", []):
+        for fn in fns:
+            body = "".join(H.func_body(H.raw(repo, f), fn).split())
+            out.append("(* %s: body of %s, %d characters without comments and white space *)" % (f, fn, len(body)))
+            out.append('Definition %s_src : string := "%s"%%string.' % (fn, hashlib.sha256(body.encode()).hexdigest()))
     return out
